@@ -1534,23 +1534,23 @@ impl Machine {
                             (self.base_pointer + dst as u64) as usize,
                             &zeros,
                         );
-                        continue;
-                    }
-                    let max_idx = len.saturating_sub(1);
-                    let index_int = if !index_val.is_finite() {
-                        0
                     } else {
-                        let raw_idx = index_val as i64;
-                        raw_idx.clamp(0, max_idx as i64) as usize
-                    };
-                    let start = index_int * elem_word_size;
-                    let end = start + elem_word_size;
-                    let buffer = &adata.data[start..end];
-                    set_vec_range(
-                        &mut self.stack,
-                        (self.base_pointer + dst as u64) as usize,
-                        buffer,
-                    );
+                        let max_idx = len.saturating_sub(1);
+                        let index_int = if !index_val.is_finite() {
+                            0
+                        } else {
+                            let raw_idx = index_val as i64;
+                            raw_idx.clamp(0, max_idx as i64) as usize
+                        };
+                        let start = index_int * elem_word_size;
+                        let end = start + elem_word_size;
+                        let buffer = &adata.data[start..end];
+                        set_vec_range(
+                            &mut self.stack,
+                            (self.base_pointer + dst as u64) as usize,
+                            buffer,
+                        );
+                    }
                 }
                 Instruction::SetArrayElem(arr, idx, val) => {
                     // Get the array, index, and value
@@ -1559,23 +1559,25 @@ impl Machine {
                     let index_val = Self::get_as::<f64>(index);
                     let elem_word_size = self.arrays.get_array(array).elem_word_size as usize;
                     let len = self.arrays.get_array(array).get_length_array() as usize;
-                    if len == 0 {
-                        continue;
+                    // Storing into an empty array does nothing. (A `continue` here would skip the
+                    // program-counter update below and execute this instruction again for ever.)
+                    if len != 0 {
+                        let max_idx = len.saturating_sub(1);
+                        let index_int = if !index_val.is_finite() {
+                            0
+                        } else {
+                            let raw_idx = index_val as i64;
+                            raw_idx.clamp(0, max_idx as i64) as usize
+                        };
+                        let (_range2, buf_src2) =
+                            self.get_stack_range(val as _, elem_word_size as _);
+                        let src_words = buf_src2.to_vec();
+                        let adata = self.arrays.get_array_mut(array);
+                        let start = index_int * elem_word_size;
+                        let end = start + elem_word_size;
+                        let buffer = &mut adata.data[start..end];
+                        buffer.copy_from_slice(&src_words);
                     }
-                    let max_idx = len.saturating_sub(1);
-                    let index_int = if !index_val.is_finite() {
-                        0
-                    } else {
-                        let raw_idx = index_val as i64;
-                        raw_idx.clamp(0, max_idx as i64) as usize
-                    };
-                    let (_range2, buf_src2) = self.get_stack_range(val as _, elem_word_size as _);
-                    let src_words = buf_src2.to_vec();
-                    let adata = self.arrays.get_array_mut(array);
-                    let start = index_int * elem_word_size;
-                    let end = start + elem_word_size;
-                    let buffer = &mut adata.data[start..end];
-                    buffer.copy_from_slice(&src_words);
                 }
                 Instruction::GetState(dst, size) => {
                     //force borrow because state storage and stack never collisions
